@@ -204,6 +204,10 @@ def fn_filter_table(ctx, rule="TABLE-Fn.filter"):
             return ("LS", a[1] == "in")
         if is_call(a, name="builtins.isinstance") and a[2] == (value, N("builtins.dict")):
             return ("D", True)
+        if a == value:
+            return ("NEV", True)   # truthiness of the item's value: for a sub-map, "has entries"
+        if is_call(a, name="builtins.len") and a[2] == (value,):
+            return ("NEV", True)
         if a[0] == "cmp" and a[1] in ("is", "is not") and is_const(a[3], None):
             nm = {subsel: "SubNN", rec0: "SelNN", rec1: "UnsNN"}.get(a[2])
             if nm:
@@ -244,6 +248,13 @@ def fn_filter_table(ctx, rule="TABLE-Fn.filter"):
                 flg[nm] = True
         S, D = sem.get("S", False), sem.get("D", False)
         has_ls = "LS" in sem
+        if D and not sem.get("NEV", True):
+            # an empty sub-map holds no leaf: it may stay whole in `unselected`, be dropped, or go through the (vacuous) recursive split
+            if got["selected"] in ([], [rec0]) and got["unselected"] in ([], [value], [rec1]):
+                ncase += 1
+                continue
+        if not D and "NEV" in sem and not sem["NEV"] and False:
+            continue
         if D:
             # a sub-map is always split recursively with the remainder selection (the parent-level flag says nothing
             # about what the remainder still selects below)
